@@ -1,1 +1,50 @@
 //! Verification facade (cfg-gated): sync family.  See `crate::verif`.
+//!
+//! * `VCounter` / `VGuard`: public newtypes over the crate-private
+//!   `utils::Counter` / `utils::counter::CounterGuard` (forwarding only).
+//! * `set_sched_hook` / `sched_point`: the scheduling-point hook called from
+//!   `CounterGuard::drop` and `Counter::wait_guards` between their statements.  With no hook
+//!   installed `sched_point` does nothing.
+#![cfg(not(target_arch = "wasm32"))]
+
+use std::sync::atomic::{AtomicUsize, Ordering};
+
+use crate::utils::{Counter, CounterGuard};
+
+static SCHED_HOOK: AtomicUsize = AtomicUsize::new(0);
+
+/// Installs (or, with `None`, removes) the process-wide scheduling-point hook.
+pub fn set_sched_hook(f: Option<fn(&'static str)>) {
+    SCHED_HOOK.store(f.map(|f| f as usize).unwrap_or(0), Ordering::SeqCst);
+}
+
+/// Called by the code under test at its scheduling points; a no-op without a hook.
+#[inline]
+pub(crate) fn sched_point(label: &'static str) {
+    let p = SCHED_HOOK.load(Ordering::SeqCst);
+    if p != 0 {
+        // SAFETY: the only non-zero values ever stored are `fn(&'static str)` pointers.
+        let f: fn(&'static str) = unsafe { std::mem::transmute::<usize, fn(&'static str)>(p) };
+        f(label);
+    }
+}
+
+/// The real `Counter`.
+pub struct VCounter(Counter);
+
+/// The real `CounterGuard`; dropping it runs the real `Drop`.
+pub struct VGuard(#[allow(dead_code)] CounterGuard);
+
+impl VCounter {
+    pub fn new() -> VCounter {
+        VCounter(Counter::new())
+    }
+
+    pub fn guard(&self) -> VGuard {
+        VGuard(self.0.guard())
+    }
+
+    pub async fn wait_guards(&mut self) {
+        self.0.wait_guards().await
+    }
+}
